@@ -53,9 +53,9 @@ CLAIMS = {
          "Static necessary-condition check: nothing is used after it was put back to a pool and no pooled backing array escapes to the caller; the []byte entry points copy before retaining; every store / native writer of the JIT encoder is covered by a reservation (check_size) since RL last advanced. That natives honour the capacity they are told is NOT decided.",
          "Alias summaries: append/HTMLEscape/CorrectWith/Quote results alias their first argument; runtime-sized reservations (check_size_r) are trusted to be sized correctly. F-15 (json.Number ignores CopyString) is outside these rules and is documented only.",
          "DESIGN.md §3.3, §3.2 A1, §4 C06"),
- "C07": ("constant/layout relations and guard-bound agreement on emitted templates; clamp rules on the error-excerpt arithmetic; reset-at-pool-boundary rule; depth-tag rule",
-         "Static necessary-condition check of the guards that turn hostile input into errors: stack bounds equal array sizes in every executor (encoder JIT/VM, jitdec, generic decoder), pooled stacks are reset, nesting is tagged at compile time, error excerpts are clamped for any position. Faults inside generated/native code and native termination are NOT decided.",
-         "Recursion in ast.Preorder (F-14) is documented as a finding but not decided by a rule in this round.",
+ "C07": ("constant/layout relations and guard-bound agreement on emitted templates; clamp rules on the error-excerpt arithmetic; reset-at-pool-boundary rule; depth-tag rule; recursion-cycle triage over the VTA call graph (SCCs) with a structural depth-guard check",
+         "Static necessary-condition check of the guards that turn hostile input into errors: stack bounds equal array sizes in every executor (encoder JIT/VM, jitdec, generic decoder), pooled stacks are reset, nesting is tagged at compile time, error excerpts are clamped for any position; every recursion cycle among sonic functions is reviewed and the input-driven ones must pass a depth guard (compare with MAX_RECURSE, return, increment) on every cycle. Faults inside generated/native code and native termination are NOT decided.",
+         "Recursion classes other than `guarded` (bounded by an earlier pass, type-structure, loader-internal) rest on the reviewed triage table; unbounded ast cycles are recorded findings F-21/F-22. Recursion inside JIT-generated code is covered by the stack-bound rules, not by the call graph.",
          "DESIGN.md §4 C07"),
  "C09": ("memo-key completeness and batch-association rules (AST), RCU identity rules",
          "Static necessary-condition check: no compile input outside the cache key, batch-loaded code associated by an injective key / position, pretouch loops in lock-step, cache compares type pointers. Observational equality of recompiled codecs is NOT decided.",
